@@ -456,6 +456,23 @@ def r3_storage_framing(ctx):
                     'version >= 2', key='json-version')
 
 
+def _is_deep_normaliser_unit(fn_node, module_functions, depth=0) -> bool:
+    """fn_node, or a module-level function it calls (one level), is a
+    recursive tuple -> list normaliser."""
+    if _is_deep_normaliser(fn_node):
+        return True
+    if depth >= 2:
+        return False
+    for c in ast.walk(fn_node):
+        if isinstance(c, ast.Call) and isinstance(c.func, ast.Name) and \
+                c.func.id in module_functions and \
+                c.func.id != fn_node.name:
+            if _is_deep_normaliser_unit(module_functions[c.func.id].node,
+                                        module_functions, depth + 1):
+                return True
+    return False
+
+
 def _is_deep_normaliser(fn_node) -> bool:
     """A function that maps tuples to lists recursively: tests for tuple and
     calls itself / an inner function of itself on the items."""
@@ -467,7 +484,7 @@ def _is_deep_normaliser(fn_node) -> bool:
         for c in ast.walk(fn_node))
     recursive = False
     for inner in [x for x in ast.walk(fn_node)
-                  if isinstance(x, ast.FunctionDef)]:
+                  if isinstance(x, ast.FunctionDef)] + [fn_node]:
         for c in ast.walk(inner):
             if isinstance(c, ast.Call) and isinstance(c.func, ast.Name) and \
                     c.func.id == inner.name:
@@ -508,8 +525,9 @@ def r4_json_closure(ctx):
                         and c.func.id in sig_mod.functions and c.args and \
                         any(is_self_attr(x, attr)
                             for x in ast.walk(c.args[0])):
-                    if _is_deep_normaliser(
-                            sig_mod.functions[c.func.id].node):
+                    if _is_deep_normaliser_unit(
+                            sig_mod.functions[c.func.id].node,
+                            sig_mod.functions):
                         ok = True
             if ok:
                 ctx.ok(eq, '%s.%s is compared in its stored (JSON) form, '
